@@ -13,9 +13,9 @@ UNROLL_MAX = 6
 
 
 class LoopCtx:
-    def __init__(self, eng, ctx, entry, cur, i=None, done=None, n=None, dom=None, seq=None, key=None):
+    def __init__(self, eng, ctx, entry, cur, i=None, done=None, n=None, dom=None, seq=None, key=None, coll=None):
         self.eng, self.ctx, self.entry, self.cur = eng, ctx, entry, cur
-        self.i, self.done, self.n, self.dom, self.seq, self.key = i, done, n, dom, seq, key
+        self.i, self.done, self.n, self.dom, self.seq, self.key, self.coll = i, done, n, dom, seq, key, coll
 
     def var(self, name):
         return self.ctx.lookup(name)
@@ -84,9 +84,16 @@ def havoc_value(eng, ctx, name, v, kinds):
     raise Unsupported('cannot havoc loop variable %s = %r' % (name, v))
 
 
+_bundle_n = [0]
+
+
 def _emit_inv(eng, ctx, spec, lc, label, k):
-    for name, t in (spec.inv(lc) or {}).items():
-        eng.oblig('loop%d.%s.%s' % (k, label, name), ctx, t, kind='loop')
+    clauses = spec.inv(lc) or {}
+    _bundle_n[0] += 1
+    hyps = list(ctx.pc) + list(eng.hyps_extra)     # evaluated after the clauses: boxing facts included
+    from .engine import Oblig
+    for name, t in clauses.items():
+        eng.obligs.append(Oblig('loop%d.%s.%s' % (k, label, name), hyps, t, (), 'loop', info={'bundle': _bundle_n[0]}))
 
 
 def _assume_inv(eng, ctx, spec, lc):
@@ -248,6 +255,8 @@ def _for_seq(eng, s, ctx, seq, spec, k):
                     yield o
     c_exit.assume(i == n)
     if eng.feasible(c_exit):
+        if spec.on_exit:
+            spec.on_exit(LoopCtx(eng, c_exit, entry, c_exit.st, i=i, n=n, seq=seq))
         yield from eng.exec_block(s.orelse, c_exit)
 
 
@@ -256,13 +265,13 @@ def _for_map(eng, s, ctx, what, sv, spec, k):
     dom = sv.c['dom']
     ksort = dom.sort().domain()
     empty = z3.K(ksort, z3.BoolVal(False))
-    _emit_inv(eng, ctx, spec, LoopCtx(eng, ctx, entry, ctx.st, done=empty, dom=dom), 'init', k)
+    _emit_inv(eng, ctx, spec, LoopCtx(eng, ctx, entry, ctx.st, done=empty, dom=dom, coll=sv), 'init', k)
     c = ctx.fork()
     _havoc(eng, c, spec)
     done = smt.fresh('done', dom.sort())
     q = z3.Const('dn_k', ksort)
     c.assume(z3.ForAll([q], z3.Implies(done[q], dom[q]), patterns=[done[q]]))
-    _assume_inv(eng, c, spec, LoopCtx(eng, c, entry, c.st, done=done, dom=dom))
+    _assume_inv(eng, c, spec, LoopCtx(eng, c, entry, c.st, done=done, dom=dom, coll=sv))
     c_exit = c.fork()
     key = smt.fresh('key', ksort)
     c.assume(dom[key], z3.Not(done[key]))
@@ -271,13 +280,15 @@ def _for_map(eng, s, ctx, what, sv, spec, k):
         for c1 in _bind_target(eng, c, s.target, item):
             for o in eng.exec_block(s.body, c1):
                 if o.kind in ('next', 'continue'):
-                    _emit_inv(eng, o.ctx, spec, LoopCtx(eng, o.ctx, entry, o.ctx.st, done=z3.Store(done, key, z3.BoolVal(True)), dom=dom, key=key), 'step', k)
+                    _emit_inv(eng, o.ctx, spec, LoopCtx(eng, o.ctx, entry, o.ctx.st, done=z3.Store(done, key, z3.BoolVal(True)), dom=dom, key=key, coll=sv), 'step', k)
                 elif o.kind == 'break':
                     yield Out('next', o.ctx)
                 else:
                     yield o
     c_exit.assume(z3.ForAll([q], done[q] == dom[q], patterns=[done[q]]))
     if eng.feasible(c_exit):
+        if spec.on_exit:
+            spec.on_exit(LoopCtx(eng, c_exit, entry, c_exit.st, done=done, dom=dom, coll=sv))
         yield from eng.exec_block(s.orelse, c_exit)
 
 
